@@ -108,6 +108,16 @@ Proof.
   unfold maxCompressedCertZstdWindow. constructor; [cbn [fst]; lia|]. constructor; [cbn [fst]; lia|]. constructor.
 Qed.
 
+(* "... and the handshake transcript verifies": the certificate flight — [CertificateRequest] followed by Certificate or
+   CompressedCertificate — enters the client's transcript in exactly the order (and form) the server sent it, so both
+   sides sign / MAC the same transcript.  The live handshake is observed by the runner (cases CFlight). *)
+Theorem C21_flight_transcript_in_order : forall f, valid_flight f = true -> client_cert_flight f true = Ok f.
+Proof. exact flight_transcript_in_order. Qed.
+Print Assumptions C21_flight_transcript_in_order.
+Theorem C21_flight_compressed_refused : forall f, valid_flight f = true -> In FCompressed f ->
+  client_cert_flight f false = Err alertBadCertificate.
+Proof. exact flight_compressed_refused. Qed.
+
 (* ---- the code as found (single Read, no probe): the same statements are false ---- *)
 Definition C21_v0_recover_full : Prop := forall C parse_cert ee adv alg out chunks,
   advertisedb adv alg = true -> known_alg alg = true -> good_reader out chunks ->
